@@ -19,9 +19,16 @@ type hTimer struct {
 	do    func()
 	sets  int
 	stops int
+	onSet func()
 }
 
-func (t *hTimer) Set(d time.Duration, do func()) { t.do = do; t.sets++ }
+func (t *hTimer) Set(d time.Duration, do func()) {
+	t.do = do
+	t.sets++
+	if t.onSet != nil {
+		t.onSet()
+	}
+}
 func (t *hTimer) Stop()                          { t.do = nil; t.stops++ }
 
 func Run(k *report.Check) {
@@ -50,6 +57,15 @@ func batcherBody(c *mc.Ctx) {
 	cur := 0        // model of the current batch token
 	var issued []batching.BatchToken
 	next := 0
+	// a timer that has expired runs its callback on a goroutine of its own, which may be delayed:
+	// expiry and the callback's run are separate events
+	type firedCb struct {
+		do    func()
+		armed int // token of the batch the timer was armed for
+	}
+	var fired []firedCb
+	armed := 0
+	tm.onSet = func() { armed = cur }
 	check := func(got []int, wantFlush bool, what string) {
 		if wantFlush {
 			if !slices.Equal(got, batch) {
@@ -64,7 +80,22 @@ func batcherBody(c *mc.Ctx) {
 	}
 	for step := 0; step < p.depth; step++ {
 		nTok := min(len(issued), 3)
-		op := c.Choose(5 + nTok)
+		op := c.Choose(6 + nTok)
+		if op == 5+nTok { // the callback of the timer that expired longest ago runs
+			if len(fired) == 0 {
+				continue
+			}
+			f := fired[0]
+			fired = fired[1:]
+			go f.do()
+			tok := <-b.BatchTimedOut
+			c.Op("TimerCallbackRuns->token %d", tok)
+			if int(tok) != f.armed {
+				c.FailSig("timeout-token-of-another-batch", "the time-out armed for batch %d delivers token %d", f.armed, tok)
+			}
+			issued = append(issued, tok)
+			continue
+		}
 		switch {
 		case op == 0:
 			step = p.depth
@@ -88,12 +119,9 @@ func batcherBody(c *mc.Ctx) {
 			if tm.do == nil {
 				continue
 			}
-			do := tm.do
+			fired = append(fired, firedCb{tm.do, armed})
 			tm.do = nil // one-shot
-			go do()
-			tok := <-b.BatchTimedOut
-			c.Op("TimerExpires->token %d", tok)
-			issued = append(issued, tok)
+			c.Op("TimerExpires(armed for batch %d)", armed)
 		default:
 			tok := issued[len(issued)-1-(op-5)]
 			got := b.Flush(tok)
@@ -102,6 +130,12 @@ func batcherBody(c *mc.Ctx) {
 		}
 		if len(issued) > 0 && c.Fresh() {
 			c.Nontrivial(fmt.Sprint(size, delay, len(batch), cur, tm.do != nil, issued[max(0, len(issued)-3):]))
+		}
+	}
+	for _, f := range fired { // callbacks still outstanding deliver their own batch's token too
+		go f.do()
+		if tok := <-b.BatchTimedOut; int(tok) != f.armed {
+			c.FailSig("timeout-token-of-another-batch", "the time-out armed for batch %d delivers token %d", f.armed, tok)
 		}
 	}
 	got := b.Flush(batching.CurrentBatch)
